@@ -66,6 +66,18 @@ def split_stmts(toks):
     out = []; i = 0; cur = []
     while i < len(toks):
         t = toks[i]
+        if t == 'if' and not cur and toks[i+1:i+4] == ['let', 'Some', '('] and toks[i+5:i+7] == [')', '=']:
+            # `if let Some(v) = EXPR { BODY }` (no else) used for its effect is `EXPR.map(|v| BODY)` with the result dropped
+            v = toks[i+4]; j = i + 7
+            while toks[j] != '{': j += 1
+            k = match_brace(toks, j)
+            if k + 1 < len(toks) and toks[k+1] == 'else': raise XErr('unsupported if-let with else: ' + ' '.join(toks[i:i+12]))
+            body = toks[j+1:k]
+            if body and body[-1] == ';': body = body[:-1]
+            out.append(('s', toks[i+7:j] + ['.', 'map', '(', '|', v, '|'] + body + [')']))
+            i = k + 1
+            if i < len(toks) and toks[i] == ';': i += 1
+            continue
         if t == 'if' and not cur:
             # if version . gte ( a , b ) { ... }
             hdr = toks[i+1:i+9]
@@ -172,6 +184,7 @@ def struct_init_fields(toks):
     out = []
     for n, it in enumerate(items):
         if opener == '{':
+            if len(it) == 1 and re.fullmatch(r'[A-Za-z_]\w*', it[0]): out.append((fname(it[0]), [it[0]])); continue  # field-init shorthand `x` = `x: x`
             if len(it) < 3 or it[1] != ':': raise XErr('struct init: bad field: ' + J(it))
             out.append((fname(it[0]), it[2:]))
         else:
@@ -186,6 +199,8 @@ def x_with_capacity(body):
             if s == 'None': validity = 'none'
             else:
                 m = re.fullmatch(r'version \. lt \( (\d+) , (\d+) \) \. then \( \|\| MutableBitmap :: with_capacity \( capacity \) \)', s)
+                # `!version.gte(a, b)` is how `Version::lt(a, b)` is defined
+                if not m: m = re.fullmatch(r'\( ! version \. gte \( (\d+) , (\d+) \) \) \. then \( \|\| MutableBitmap :: with_capacity \( capacity \) \)', s)
                 if not m: raise XErr('with_capacity: validity: ' + s)
                 validity = ('eager_lt', int(m.group(1)), int(m.group(2)))
             continue
@@ -300,6 +315,7 @@ def x_from_arr(body):
         if m: ents.append(dict(f=name, idx=int(m.group(1)), ty=m.group(2), opt=False)); continue
         m = re.fullmatch(r'(\w+) :: from_struct_array \( values \[ (\d+) \] \. as_any \( \) \. downcast_ref :: < StructArray > \( \) \. unwrap \( \) \. clone \( \) , version \)', s)
         if m: ents.append(dict(f=name, idx=int(m.group(2)), ty='sub', sub=m.group(1), opt=False)); continue
+        s = s.replace('values . first ( )', 'values . get ( 0 )')  # `first()` is `get(0)`
         m = re.fullmatch(r'values \. get \( (\d+) \) \. map \( \| x \| x \. as_any \( \) \. downcast_ref :: < PrimitiveArray < (\w+) > > \( \) \. unwrap \( \) \. clone \( \) \)', s)
         if m: ents.append(dict(f=name, idx=int(m.group(1)), ty=m.group(2), opt=True)); continue
         m = re.fullmatch(r'values \. get \( (\d+) \) \. map \( \| x \| (\w+) :: from_struct_array \( x \. as_any \( \) \. downcast_ref :: < StructArray > \( \) \. unwrap \( \) \. clone \( \) , version \) \)', s)
@@ -312,6 +328,7 @@ def x_len(body):
     m = re.fullmatch(r'self \. (\S+) \. len \( \)', s)
     if m: return dict(field=fname(m.group(1)))
     if s.startswith('self . validity . as_ref ( ) . map ( | v | v . len ( ) ) . unwrap_or_else'): return dict(field='validity|latest_finalized_frame', special='End')
+    if s == 'if let Some ( v ) = self . validity . as_ref ( ) { v . len ( ) } else { self . latest_finalized_frame . as_ref ( ) . unwrap ( ) . len ( ) }': return dict(field='validity|latest_finalized_frame', special='End')
     raise XErr('len: unsupported: ' + s)
 
 def x_struct_def(body, kind):
